@@ -282,8 +282,12 @@ def check_snapshot(case, exp, sn):
             raise Violation('data-mismatch', '%d byte(s) differ after loading, first at %s (ORG=%d, STACK=%r, CLEAR=%r)' % (len(bad), bad[:4], org, case['stack'], case['clear']), case)
         if exp['scr'] is not None:
             scr = bytes(ram[:6912])
-            # bytes of the screen covered by the program itself or by the stack are not screen any more
-            badscr = [16384 + i for i in range(6912) if scr[i] != exp['scr'][i] and not (org <= 16384 + i < org + n) and 16384 + i not in excl]
+            # bytes of the screen covered by the program itself or by the stack are not screen any more. With the stack
+            # inside the display file, a frame interrupt accepted between two blocks (the ROM re-enables interrupts
+            # in SA/LD-RET) lets the ROM's interrupt routine push up to ~18 more bytes below the loader's own 14
+            # (thorough-tier case: STACK=22527, bytes 22509-22512; fast-load only - a matter of frame timing)
+            excl_scr = excl | (set(range(stack - 32, stack)) if case['clear'] is None else set())
+            badscr = [16384 + i for i in range(6912) if scr[i] != exp['scr'][i] and not (org <= 16384 + i < org + n) and 16384 + i not in excl_scr]
             if badscr:
                 raise Violation('screen-mismatch', '%d screen byte(s) differ, first at %s' % (len(badscr), badscr[:4]), case)
     else:
